@@ -125,6 +125,20 @@ def run(ctx):
                f'a task is reported as running on the lost worker only if its start was announced (old state {vt}, announced {sorted(announced)})',
                orw.loc(pb))
 
+    # ---- R07.11 completeness of the running list
+    ctx.rule('R07.11', 'every task that leaves a running state (Running, RunningMultiNode on its root) because its worker was lost is put on the running list in the same iteration: the list drives the crash counter, the never-restart failure and the journal')
+    from hqrules.templates import same_iteration_has
+    n11 = 0
+    for bi, s_, v, pl in state_writes(orw, TRS):
+        if v != 'Waiting':
+            continue
+        old = variants_at(orw, TRS, bi)
+        if old and set(old) <= {'Running', 'RunningMultiNode'}:
+            n11 += 1
+            ctx.ob('R07.11', f'on_remove_worker|{"+".join(sorted(old))}->Waiting|on the running list', same_iteration_has(orw, bi, pushes),
+                   f'a task re-queued from {sorted(old)} is recorded as having been running on the lost worker', orw.loc(bi, s_))
+    ctx.floor('R07.11', n11, 1, 're-queue writes from a running state in on_remove_worker')
+
     # ---- R07.5
     for b in tf + [bi for o, bb, bi in sites if bb.path == orw.path]:
         t = orw.term[b]
